@@ -239,8 +239,19 @@ def r4_send(L, repo, tier):
         arg = s.args[0] if s.args else None
         src = None
         if isinstance(arg, ast.Name):
-            defs = [n for n in ast.walk(fd) if isinstance(n, ast.Assign) and name_of(n.targets[0]) == arg.id]
-            src = [canon(d.value) for d in defs]
+            # follow plain copies; a `None` assigned on the rejection path is not what is sent (the send is not reached
+            # from there, see above)
+            def srcs(nm, depth=0):
+                out_ = []
+                for d in [n for n in ast.walk(fd) if isinstance(n, ast.Assign) and name_of(n.targets[0]) == nm]:
+                    if isinstance(d.value, ast.Constant) and d.value.value is None:
+                        continue
+                    if isinstance(d.value, ast.Name) and depth < 3:
+                        out_ += srcs(d.value.id, depth + 1) or [d.value.id]
+                    else:
+                        out_.append(canon(d.value))
+                return out_
+            src = srcs(arg.id)
         ok = src is not None and len(src) == 1 and ".gen_msg(" in src[0]
         L.ob("C13.R4", F2, fn, "what is sent is exactly what gen_msg() returned", "payload = msg.gen_msg(...)", src, ok, s.lineno)
     # who-may-send on a data interface, bypassing send_msg
